@@ -55,7 +55,10 @@ func TrimDomainName(s, origin string) string {
 	}
 	// Someone is using TrimDomainName(s, ".") to remove a dot if it exists.
 	if origin == "." {
-		return strings.TrimSuffix(s, origin)
+		if t := strings.TrimSuffix(s, origin); t != "" {
+			return t
+		}
+		return "@" // the root itself is the apex
 	}
 
 	original := s
